@@ -157,6 +157,8 @@ struct ThreadInfo {
     cv: Arc<Condvar>,
     name: String,
     blocked_count: u64,
+    /// simulated clock (absolute ns) when this thread last entered the blocked state
+    last_block_clock: u64,
     timed_out: bool,
     priority: i64,
     consecutive: u64,
@@ -567,6 +569,7 @@ pub fn block_on(key: u64, deadline: Option<u64>, site: u64) -> Wake {
     st.blocks += 1;
     st.threads[me].last_site = site;
     st.threads[me].blocked_count += 1;
+    st.threads[me].last_block_clock = st.clock;
     st.threads[me].timed_out = false;
     st.threads[me].status = Status::Blocked { key, deadline };
     st = check_limits(&sim, st);
@@ -724,6 +727,14 @@ pub fn blocked_count(tid: Tid) -> u64 {
     }
 }
 
+/// The simulated clock (same scale as `clock_ns()`) at which `tid` last entered the blocked state (0: never).
+pub fn last_block_clock_ns(tid: Tid) -> u64 {
+    match ctx() {
+        Some((sim, _)) => sim.lock().threads.get(tid).map(|t| t.last_block_clock).unwrap_or(0),
+        None => 0,
+    }
+}
+
 pub fn thread_finished(tid: Tid) -> bool {
     match ctx() {
         Some((sim, _)) => sim
@@ -869,6 +880,7 @@ where
             cv: Arc::new(Condvar::new()),
             name: name.clone().unwrap_or_else(|| format!("t{tid}")),
             blocked_count: 0,
+            last_block_clock: 0,
             timed_out: false,
             priority: prio,
             consecutive: 0,
@@ -990,6 +1002,7 @@ where
             cv: Arc::new(Condvar::new()),
             name: "main".into(),
             blocked_count: 0,
+            last_block_clock: 0,
             timed_out: false,
             priority: prio0,
             consecutive: 0,
